@@ -28,7 +28,7 @@ CHECKS = {
         "5/C03",
     ),
     "C05": (
-        "Hypothesis-generated direct allocate calls vs an independent cost function and bisection oracle",
+        "Hypothesis-generated direct allocate calls vs an independent cost function and bisection oracle (thorough tier: plus a coverage-guided atheris campaign on the same oracle)",
         "Generated-input search (40k quick / 1.5M thorough direct calls over price x multiplier x position x amount x spread x commission spec x mode) against an "
         "independent cost model: budget respected, maximal whole quantity, fractional equality, close-out, zero amount, refusal at NaN/zero price. No counterexample = "
         "evidence over the sampled domain, not a proof.",
@@ -255,7 +255,14 @@ def main():
                 "serves_properties": sorted(CHECKS),
                 "kind_free_text": "Hypothesis 6.168 strategies produce plain-data specs; vlib/interp.py interprets them against bt built from /repo's working tree; "
                 "oracles are reference models / metamorphic relations / validity predicates in vlib/props; exhaustive enumeration for small finite domains",
-            }
+            },
+            {
+                "name": "atheris",
+                "path": "fuzz/",
+                "serves_properties": ["C05"],
+                "kind_free_text": "supplementary coverage-guided libFuzzer campaign (atheris 3.1, thorough tier of C05 only): bytes are decoded into the same allocate specs and judged by the same "
+                "case function; 16 processes x 100k executions, seeded from VERIF_SEED; installed offline into /verif/.deps on first use, skipped (and reported in the evidence) if unavailable",
+            },
         ],
         "checks": checks,
         "not_applicable": na,
